@@ -214,6 +214,13 @@ func checkC04Bits(c c04Case, bits []bool) (Outcome, error) {
 		wp = ref.LinComp(bits, c.M)
 		wq = wp
 		gp, gq = rn.LinearComplexityProto(bits, c.M)
+		if runner {
+			bp, bq := rn.LinearComplexityTestBytes(gen.Pack(bits), c.M)
+			if err := cmpPQ("lincomp-bytes", what+" (byte entry point)", bp, bq, wp, wq, "C04"); err != nil {
+				return out, err
+			}
+			out.Classes = append(out.Classes, "via-byte-entry-point")
+		}
 		if runner && c.M == 500 {
 			res := rn.LinearComplexity(gen.Pack(bits))
 			if err := cmpPQ("lincomp-runner", what+" (registry runner)", res.P, res.Q, wp, wq, "C04"); err != nil {
@@ -246,6 +253,10 @@ func checkC04Bits(c c04Case, bits []bool) (Outcome, error) {
 		wq = wp
 		gp, gq = rn.MatrixRankProto(bits, 32, 32)
 		if runner {
+			bp, bq := rn.MatrixRankTestBytes(gen.Pack(bits), 32, 32)
+			if err := cmpPQ("rank-bytes", what+" (byte entry point)", bp, bq, wp, wq, "C04"); err != nil {
+				return out, err
+			}
 			res := rn.MatrixRank(gen.Pack(bits))
 			if err := cmpPQ("rank-runner", what+" (registry runner)", res.P, res.Q, wp, wq, "C04"); err != nil {
 				return out, err
@@ -277,6 +288,10 @@ func checkC04Bits(c c04Case, bits []bool) (Outcome, error) {
 		out.NonTrivial = out.NonTrivial || nontrivialP(wp)
 		gp, gq = rn.MaurerUniversalTest(bits)
 		if runner {
+			bp, bq := rn.MaurerUniversalTestBytes(gen.Pack(bits))
+			if err := cmpPQ("maurer-bytes", what+" (byte entry point)", bp, bq, wp, wq, "C04"); err != nil {
+				return out, err
+			}
 			res := rn.MaurerUniversal(gen.Pack(bits))
 			if err := cmpPQ("maurer-runner", what+" (registry runner)", res.P, res.Q, wp, wq, "C04"); err != nil {
 				return out, err
